@@ -352,9 +352,9 @@ func targets() []target {
 
 func zoneList() []string {
 	if ev.Thorough() {
-		return zones.Names()
+		return append(zones.Names(), zones.Synthetic)
 	}
-	return zones.Spread(40)
+	return append(zones.Spread(40), zones.Synthetic)
 }
 
 func genRT(t *rapid.T) rtCase {
